@@ -1126,4 +1126,15 @@ pub proof fn lemma_reopened_wf(t: LogInnerManager, m: LogInnerManager)
     assert(d.take(32) =~= m.index_file.contents().take(32));
 }
 
+
+/// what the start-up replay hands to the loader out of the first n records of a stream: every record that decodes, in order
+/// (a record whose payload does not decode is skipped by the real code, silently)
+pub open spec fn loaded(from: Seq<u8>, n: nat) -> Seq<LogRecordDto>
+    decreases n
+{
+    if n == 0 { Seq::empty() } else {
+        let j = (n - 1) as nat;
+        if pb_decodes::<LogRecord>(frame_at(from, j)) { loaded(from, j).push(rec_dto(frame_msg(frame_at(from, j)))) } else { loaded(from, j) }
+    }
+}
 } // verus!
